@@ -20,6 +20,9 @@ class Fixpoint(Monitor):
             self.fail(env, "not-a-fixpoint", "C05 persisting the restored conductor does not reproduce the persisted form; differs in %s" % diff, part=",".join(diff))
 
 
+OWN_THOROUGH = True
+
+
 def crash_twin(ch, ctx, did, steps, crash="bits", crash_max=6, control=None, twin=False):
     """N is never persisted; P is persisted and restored at the chosen boundaries. Both are
     driven by the same decisions. Offers at every step and the final persisted form, output,
